@@ -104,7 +104,13 @@ def check_claim(chk, cfg, m, fn):
     tag = "%s[%s]" % (fn.name, cfg)
     # messageq_claim contains the compare-exchange retry loop: paths with at most one retry are examined, every CAS
     # event on them is checked against the value loaded in the same iteration (the rules are per-iteration)
-    ps = [p for p in paths.enumerate_paths(fn, m, loop_bound=1) if not paths.is_assert_fail_path(p)]
+    # (a retry loop that is counted by a small constant is unrolled that many times, so that its give-up exit is seen)
+    lb = 1
+    for h in fn.loops_headers():
+        cl = fn.counted_loop(h)
+        if cl and 1 < cl[0] <= 4:
+            lb = max(lb, cl[0])
+    ps = [p for p in paths.enumerate_paths(fn, m, loop_bound=lb) if not paths.is_assert_fail_path(p)]
     n_cas = 0
     optimistic = False
     for p in ps:
@@ -197,6 +203,24 @@ def check_claim(chk, cfg, m, fn):
                        "operation): two claimers that both observe the last permit both decrement and both go on to take a slot - one "
                        "of them a slot that still holds an unreceived message", subs[0].inst.loc, fn.name)
         elif net == 0:
+            if subs and _is_null(p.ret):
+                # "fails only if no buffer was free": the path that hands the permit back and refuses must be one on which the decrement
+                # found none (returned <= 0).  Evaluate the path's conditions over the decrement's result alone with a permit in hand
+                res = subs[0].res
+                own = [(c, t, i) for c, t, i in p.conds if paths.contains(c, lambda x: x == res) and
+                       not [x for x in paths.arith_subexprs(c) if x != res and x[0] in ("ld", "ald", "rmw", "cx", "cxres", "call", "arg", "sym")]]
+                feasible_with_permit = None
+                if own:
+                    try:
+                        feasible_with_permit = any(all(paths.cond_holds(cd, {res: v}) for cd in own) for v in (1, 2, 5, 31))
+                    except NoValue:
+                        feasible_with_permit = None
+                if feasible_with_permit is not None:
+                    chk.ob("R2.reservation", pathid + " refusal", not feasible_with_permit,
+                           "claim refuses (and undoes its decrement) only where the decrement found no permit" if not feasible_with_permit else
+                           "claim hands its permit back and returns NULL on a path where the decrement DID obtain a permit (it gave up for "
+                           "another reason, e.g. after losing the race for the cursor a few times): a claimer is turned away while "
+                           "buffers are free", subs[0].inst.loc, fn.name)
             ok = _is_null(p.ret) and not sendp_w
             why = "net effect 0 on num_free: must return NULL and leave sendp alone"
             if not _is_null(p.ret):
